@@ -283,13 +283,15 @@ def classify_failure(harness, model, seed, i, f):
                 and pair_ok(harness, model, prog, var, strict, 'global') and pair_ok(harness, model, prog, var, True, 'eval'):
             return SIG_EVALFN                # only the sloppy direct-eval placement fails, and the pattern is present
         changed = {k: (apply(prog, k) != prog or apply(var, k) != var) for k in 'TJR'}
-        for sub in ('T', 'J', 'R', 'TJ', 'TR', 'JR', 'TJR'):
+        for sub in ('J', 'R', 'T', 'JR', 'JT', 'RT', 'JRT'):
             if not all(changed[k] for k in sub):
                 continue
             if 'R' in sub and raw_sig() is None:
                 continue
             if pair_ok(harness, model, apply(prog, sub), apply(var, sub), strict, pl):
-                return {'T': SIG_FINALLY, 'J': SIG_JUMP, 'R': raw_sig()}[sub[0]]
+                return {'T': SIG_FINALLY, 'J': SIG_JUMP, 'R': raw_sig()}[sub[0]]   # J before R before T
+                # (the try/finally defect is repaired in /repo: a failure that needs T alone is reported under its
+                #  old signature, which is no longer `known`, i.e. it alarms)
         # sloppy direct-eval defect combined with others: with every other trigger neutralised the sloppy eval
         # placement still fails, while global placement and strict eval pass
         if pl == 'eval' and not strict and (G.toplevel_fdecl_and_lexical(var) or G.toplevel_fdecl_and_lexical(prog)):
